@@ -30,7 +30,8 @@ pub proof fn axiom_cow_cell_ref(c: &VCell) ensures cow_cell::<&VCell>(c) == *c {
 pub assume_specification<'a, T: Into<std::borrow::Cow<'a, VCell>>> [Heap::get] (h: &Heap, v: T) -> (r: VCell) ensures r == heap_deref(*h, cow_cell(v));
 pub assume_specification<T: Into<VCell> + Clone> [Heap::put] (h: &mut Heap, v: T) -> (r: VCell);
 pub assume_specification<T: Into<VCell> + Clone> [Heap::maybe_put] (h: &mut Heap, v: T) -> (r: VCell);
-pub assume_specification [Heap::get_at_index] (h: &Heap, i: usize) -> (r: &VCell);
+/// (assumed total: it panics on an index beyond the heap, which a pointer held by the machine never is)
+pub assume_specification [Heap::get_at_index] (h: &Heap, i: usize) -> (r: &VCell) ensures *r == heap_deref(*h, VCell::Ptr(i));
 pub assume_specification [Heap::get_as_cell] (h: &Heap, v: &VCell) -> (r: Cell);
 pub assume_specification [VCell::as_vector] (v: &VCell) -> (r: Result<&crate::vm::vector::Vector, Error>);
 pub assume_specification [VCell::as_lambda] (v: &VCell) -> (r: Result<&Lambda, Error>);
@@ -51,9 +52,9 @@ pub assume_specification [crate::vm::vcell::BuiltInProc::eval] (p: &crate::vm::v
 pub uninterp spec fn lambda_at(h: Heap, ip0: usize) -> Lambda;
 pub open spec fn cur_lambda(vm: Vm) -> Lambda { lambda_at(vm.heap_spec(), vm.regs().1.0) }
 pub assume_specification [Vm::lambda] (vm: &Vm) -> (r: &Lambda) ensures *r == cur_lambda(*vm);
-/// Vm::pop: the popped cell read through the heap (run.rs: `self.heap.get(self.stack.pop()?)`)
-pub assume_specification [Vm::pop] (vm: &mut Vm) -> (r: Result<VCell, Error>)
-    ensures r matches Ok(c) ==> c == heap_deref(old(vm).heap_spec(), old(vm).stack_spec().cells()[old(vm).stack_spec().sp_spec() as int]);
+/// Heap::get / get_at_index answer a cell that is not a pointer with that very cell (heap.rs: `_ => vcell`)
+#[verifier::external_body]
+pub proof fn axiom_deref_immediate(h: Heap, c: VCell) ensures !(c is Ptr) ==> heap_deref(h, c) == c {}
 /// std: `impl<T> From<T> for T` is the identity
 #[verifier::external_body]
 pub proof fn axiom_into_self() ensures <VCell as vstd::std_specs::convert::IntoSpec<VCell>>::obeys_into_spec(),
@@ -192,6 +193,17 @@ UNITS = [{
     'uses_types': ['Cell', 'Error', 'Heap', 'GlobalEnvironment', 'StackTrace', 'VCell', 'OpCodeT', 'Lambda', 'RcDeref', 'RcAsRef', 'Vector', 'LexicalEnvironment', 'EnvironmentMap', 'Continuation', 'BuiltInProc'],
     'prelude': PRELUDE,
     'fns': {
+        # Vm::pop: the popped cell read through the heap (verified here; the other groups assume this text)
+        'impl Vm::pop': {
+            'props': P + ['C05', 'C06'],
+            'requires': ['old(self).stack_spec().wf()'],
+            'ensures': [(P + ['C05'], 'r matches Ok(c) ==> c == heap_deref(old(self).heap_spec(), old(self).stack_spec().cells()[old(self).stack_spec().sp_spec() as int])'),
+                        (P + ['C05'], 'final(self).heap_spec() == old(self).heap_spec() && final(self).regs() == old(self).regs() && final(self).acc_spec() == old(self).acc_spec() && final(self).globenv_spec() == old(self).globenv_spec()'),
+                        (P + ['C05'], 'final(self).stack_spec().wf() && final(self).stack_spec().cells() == old(self).stack_spec().cells()'),
+                        (P + ['C05'], 'old(self).stack_spec().sp_spec() > 0 ==> r is Ok && final(self).stack_spec().sp_spec() == old(self).stack_spec().sp_spec() - 1'),
+                        (P + ['C05'], 'old(self).stack_spec().sp_spec() == 0 ==> r is Err && final(self).stack_spec().sp_spec() == 0')],
+            'body_start': 'proof { let c = old(self).stack_spec().cells()[old(self).stack_spec().sp_spec() as int]; axiom_deref_immediate(old(self).heap_spec(), c); }',
+        },
         'impl Vm::run_one': {
             'props': P + ['C05'],
             'attrs': '#[verifier::exec_allows_no_decreases_clause]\n#[verifier::loop_isolation(false)]\n#[verifier::rlimit(80)]',
